@@ -1629,7 +1629,7 @@ main(int argc, char** argv)
     g_default_ep = fresh.default_ep();
     op("defaults", fresh.defaults_line());
   }
-  const int ngeoms = thorough ? 14 : 4;
+  const int ngeoms = thorough ? 40 : 6;
   int id = 0;
   // ---- a fixed small case (independent of the seed): 8 detectors x 2 rings, 5x5x3 image of 40 mm voxels whose corners lie
   //      outside the cylindrical FOV (zero sensitivity), 2 subsets, gamma = 0.5, quadratic prior beta = 1, default everything else.
